@@ -59,10 +59,33 @@ def gen_order(r, dom):
     return r.randint(1, 4)
 
 
-def build_model(dom, cliques, total, order):
+def build_model(dom, cliques, total, order, form=None):
     from mbi import Domain, GraphicalModel
     d = Domain([a for a, _ in dom], [s for _, s in dom])
-    return GraphicalModel(d, [tuple(c) for c in cliques], total=total, elimination_order=order)
+    return GraphicalModel(d, [tuple(c) for c in cliques], total=total, elimination_order=order_form(order, form))
+
+
+ORDER_FORMS = ['list', 'tuple', 'iter', 'generator', 'reversed', 'map', 'dict_keys']
+
+
+def order_form(order, form):
+    """a given elimination order (a permutation of the attributes) in another legal spelling: any iterable, one-shot ones included"""
+    if form is None or form == 'list' or not isinstance(order, (list, tuple)):
+        return order
+    order = list(order)
+    if form == 'tuple':
+        return tuple(order)
+    if form == 'iter':
+        return iter(order)
+    if form == 'generator':
+        return (a for a in order)
+    if form == 'reversed':
+        return reversed(order[::-1])
+    if form == 'map':
+        return map(str, order)
+    if form == 'dict_keys':
+        return dict.fromkeys(order).keys()
+    return order
 
 
 def gen_potentials(r, model, zero_p=0.15, transposed=True):
@@ -79,15 +102,17 @@ def gen_potentials(r, model, zero_p=0.15, transposed=True):
     return out
 
 
-def impl_potentials(pots, scale=None):
-    """CliqueVector of log-space Factors for the implementation"""
+def impl_potentials(pots, scale=None, offsets=None):
+    """CliqueVector of log-space Factors for the implementation (optionally scaled, then shifted by one constant per clique)"""
     from mbi import Domain, Factor, CliqueVector
     d = {}
-    for cl, fdom, vals in pots:
+    for i, (cl, fdom, vals) in enumerate(pots):
         with np.errstate(divide='ignore'):
             arr = np.array([math.log(v) if v > 0 else -math.inf for v in vals], dtype=float)
         if scale is not None:
             arr = arr * scale
+        if offsets is not None:
+            arr = arr + offsets[i]
         d[tuple(cl)] = Factor(Domain([a for a, _ in fdom], [s for _, s in fdom]), arr)
     return CliqueVector(d)
 
